@@ -117,6 +117,9 @@ func c10CommonPrefixBits(a, b []byte) int {
 // tail variation, p drawn from depths around the 4-level batch boundaries.
 func c10Universe(t *rapid.T) [][]byte {
 	base := rapid.SliceOfN(rapid.Byte(), 32, 32).Draw(t, "base")
+	if rapid.IntRange(0, 3).Draw(t, "zeroFirstByte") == 0 {
+		base[0] = 0x00 // keys whose first byte is the byte that also stands for "empty subtree"
+	}
 	depths := []int{0, 1, 2, 3, 4, 5, 7, 8, 9, 11, 12, 13, 15, 16, 17, 31, 32, 33, 63, 64, 127, 128, 200, 247, 248, 249, 251, 252, 253, 254, 255}
 	n := rapid.IntRange(3, 14).Draw(t, "nkeys")
 	seen := map[string]bool{}
